@@ -23,6 +23,12 @@ type messageSetReader struct {
 	lengthRemain int
 
 	decompressed *bytes.Buffer
+
+	// Last offset covered by the most recent record batch (v2) whose header
+	// was entirely read, it is used to skip over offsets that were removed by
+	// log compaction at the end of a batch, or batches left empty.
+	lastBatchEnd    int64
+	hasLastBatchEnd bool
 }
 
 type readerStack struct {
@@ -338,6 +344,12 @@ func (r *messageSetReader) readMessageV2(_ int64, key readBytesFunc, val readByt
 	return
 }
 
+// lastBatchOffset returns the last offset covered by the record batch whose
+// header was read last, which is known for the v2 format only.
+func (r *messageSetReader) lastBatchOffset() (int64, bool) {
+	return r.lastBatchEnd, r.hasLastBatchEnd
+}
+
 func (r *messageSetReader) discardBytes() (err error) {
 	r.remain, err = discardBytes(r.reader, r.remain)
 	return
@@ -480,10 +492,18 @@ func (r *messageSetReader) readHeader() (err error) {
 			return
 		}
 		r.count = int(r.header.v2.count)
+		r.lastBatchEnd = r.header.firstOffset + int64(r.header.v2.lastOffsetDelta)
+		r.hasLastBatchEnd = true
 		// Subtracts the header bytes from the length
 		r.lengthRemain = int(r.header.length) - 49
 		if r.debug {
 			r.log("Read v2 header with count=%d offset=%d len=%d magic=%d attributes=%d", r.count, r.header.firstOffset, r.header.length, r.header.magic, r.header.v2.attributes)
+		}
+		if r.count == 0 && r.lengthRemain == 0 && r.remain > 0 {
+			// A batch that was left empty by log compaction, there is no
+			// record to read in it: move on to the next batch, otherwise its
+			// header would be parsed as if it were a record.
+			return r.readHeader()
 		}
 	default:
 		err = r.header.badMagic()
